@@ -19,6 +19,7 @@ var errInjectedWrite = errors.New("dsim: injected write error")
 // did not get its data), a path error around it
 var errWrappedEOF = fmt.Errorf("dsim: connection closed by peer: %w", io.EOF)
 var errWrappedUEOF = &fs.PathError{Op: "read", Path: "/dsim/simulated", Err: io.ErrUnexpectedEOF}
+var errTransientRead = errors.New("dsim: i/o timeout (transient)")
 var errNoSpace = errors.New("dsim: no space left on simulated device")
 
 type ReadFault struct {
@@ -52,10 +53,17 @@ func (r *simReader) Read(p []byte) (int, error) {
 		return 0, nil
 	}
 	limit := len(r.data)
-	if r.fault.Kind != "" && r.fault.At < limit {
+	if r.fault.Kind != "" && r.fault.At < limit && !(r.fault.Kind == "err_n1" && r.fired) {
 		limit = r.fault.At
 	}
-	if r.fault.Kind != "" && r.pos >= r.fault.At && r.fault.At <= len(r.data) {
+	if r.fault.Kind == "err_n1" {
+		// transient: the read that ends at the offset delivers its bytes TOGETHER with an error
+		// (a timeout), once; the source then carries on as if nothing had happened
+		if !r.fired && r.pos >= r.fault.At {
+			r.fired = true // (offset 0: nothing to deliver with it)
+			return 0, errTransientRead
+		}
+	} else if r.fault.Kind != "" && r.pos >= r.fault.At && r.fault.At <= len(r.data) {
 		switch r.fault.Kind {
 		case "err", "err_n":
 			r.fired = true
@@ -98,6 +106,10 @@ func (r *simReader) Read(p []byte) (int, error) {
 	}
 	copy(p, r.data[r.pos:r.pos+n])
 	r.pos += n
+	if r.fault.Kind == "err_n1" && !r.fired && r.pos == r.fault.At && n > 0 {
+		r.fired = true
+		return n, errTransientRead
+	}
 	if r.fault.Kind == "err_n" && r.pos == r.fault.At && n > 0 {
 		r.fired = true
 		r.done = errInjectedRead
